@@ -255,7 +255,7 @@ function adhocValidators(rng) {
 
 export async function run(ctx) {
   const locCache = new Map();
-  const nProgs = ctx.share(800, 24000);
+  const nProgs = ctx.share(3200, 24000);
   const seenTriples = new Map();
   const judgeItem = async (item) => {
     const { prog, parsers, ref } = item;
